@@ -8,6 +8,20 @@ namespace GIV.Cache
 open GIV
 
 
+/-! ### the regenerated index-entry format string, evaluated -/
+
+/-- The index entry, as the explicit concatenation the format string `"v1 %x %x %20d %20d\n"` denotes. -/
+theorem fmtEntry_eq (id out : Hash) (size t : Int) : fmtEntry id out size t =
+    [118, 49, 32] ++ (hexEncode id.val ++ (32 :: (hexEncode out.val ++ (32 :: (padLeft 20 (fmtInt size) ++ (32 :: (padLeft 20 (fmtInt t) ++ [10]))))))) := by
+  simp [fmtEntry, sprintf, sprintfGo, Gen.Cache.entryFormat, padLeft]
+
+theorem fmtEntry_length' (id out : Hash) (size t : Int)
+    (hs0 : 0 ≤ size) (hs1 : size < 10 ^ 20) (ht0 : 0 ≤ t) (ht1 : t < 10 ^ 20) :
+    (fmtEntry id out size t).length = 175 := by
+  rw [fmtEntry_eq]
+  simp [Hash.hex_length, pad20_length size hs0 hs1, pad20_length t ht0 ht1]
+
+
 theorem slice_mid (a b c : Bytes) (lo hi : Nat) (ha : a.length = lo) (hb : lo + b.length = hi) :
     slice (a ++ (b ++ c)) lo hi = some b := by
   subst ha hb
